@@ -55,6 +55,7 @@ func newSorts() *Sorts {
 		"(declare-fun strlen (Str) Int)",
 		"(assert (forall ((s Str)) (! (>= (strlen s) 0) :pattern ((strlen s)))))",
 		"(declare-fun sconcat (Str Str) Str)",
+		"(assert (forall ((a Str) (b Str)) (! (= (strlen (sconcat a b)) (+ (strlen a) (strlen b))) :pattern ((sconcat a b)))))",
 		"(declare-fun strlt (Str Str) Bool)",
 		"(declare-fun substr (Str Int Int) Str)",
 		"(declare-fun strat (Str Int) Int)",
